@@ -568,6 +568,57 @@ pub fn gen_c09_texts(tier: &str, seed: u64) -> Vec<String> {
         "a (>= 1 : 2)",
         "a : any",
         "a:any(>= 1)[b]<c>",
+        // the table of the C10 audit (section 4): strictly accepted outside `FieldA.WF`, and the
+        // neighbouring texts on which the readers differ or all reject
+        "a :any",
+        "a: any",
+        "a\n:\nany",
+        "a [! x]",
+        "a [!]",
+        "a [x !]",
+        "a [!!x]",
+        "a [! !x]",
+        "a [x!y]",
+        "a [x x]",
+        "a []",
+        "a <>",
+        "a <x!y>",
+        "a <!x!y>",
+        "a <x !y> <z!w>",
+        "a (1)",
+        "a (> 1)",
+        "a (< 1)",
+        "a (== 1)",
+        "a (<> 1)",
+        "a (=> 1)",
+        "a (>>= 1)",
+        "a (= x:1)",
+        "a (= 4294967296:1)",
+        "a (= 4294967295:1)",
+        "a (= 01:1)",
+        "a (= 1:)",
+        "a (= :1)",
+        "a (= ::)",
+        "a(=:)",
+        "\u{a0}a",
+        "a\u{c}, b",
+        "a (>> 1)\u{b}",
+        "a |\u{2003}b",
+        "${}",
+        "${:}",
+        "${a:}",
+        "${:a}",
+        "${a::b}",
+        "${}, a",
+        "a (= ${binary:Version})",
+        "${a:b} | c",
+        "a | ${b}",
+        "a ${b}",
+        "a:any:any",
+        "a (= 1) (= 2)",
+        "a [x] [y]",
+        "a <y> [x]",
+        "a [x] (>= 1)",
     ] {
         v.push(t.to_string());
     }
